@@ -69,6 +69,10 @@ pub struct World {
     pub next_incarnation: u32,
     pub init: Init,
     pub stats: FaultCounters,
+    /// shadow of the undo / redo stacks: kinds of the recorded operations
+    /// (maintained from hook H1, used by generator guards only)
+    pub undo_kinds: Vec<&'static str>,
+    pub redo_kinds: Vec<&'static str>,
 }
 
 pub struct StepRes {
@@ -110,7 +114,7 @@ fn apply_layout(model: &mut Model, k: u8) {
             ws.cols = vec![
                 Col { min: 1, max: 3, width: 12.5, custom_width: true, hidden: true, style: Some(fmt) },
                 Col { min: 4, max: 4, width: 30.0, custom_width: true, hidden: false, style: None },
-                Col { min: 5, max: 16384, width: 10.0, custom_width: false, hidden: false, style: Some(bold) },
+                Col { min: 5, max: 9, width: 10.0, custom_width: false, hidden: false, style: Some(bold) },
             ];
             ws.rows = vec![Row { r: 3, height: 30.0, custom_format: true, custom_height: true, s: fmt, hidden: false }];
         }
@@ -162,15 +166,38 @@ impl World {
             next_incarnation: 1,
             init: init.clone(),
             stats: FaultCounters::default(),
+            undo_kinds: vec![],
+            redo_kinds: vec![],
         })
     }
 
     /// Applies one event; panics inside the engine are caught and reported.
     pub fn step(&mut self, ev: &Ev) -> StepRes {
         ironcalc_base::mock_time::set_mock_time(self.now_ms as i64);
+        let (u0, r0, _) = self.primary.lens();
         let r = catch_unwind(AssertUnwindSafe(|| self.step_inner(ev)));
         match r {
-            Ok(res) => res,
+            Ok(res) => {
+                let (u1, r1, _) = self.primary.lens();
+                if res.restarted {
+                    self.undo_kinds.clear();
+                    self.redo_kinds.clear();
+                } else if matches!(ev, Ev::Undo) && u1 + 1 == u0 {
+                    if let Some(k) = self.undo_kinds.pop() {
+                        self.redo_kinds.push(k);
+                    }
+                } else if matches!(ev, Ev::Redo) && r1 + 1 == r0 {
+                    if let Some(k) = self.redo_kinds.pop() {
+                        self.undo_kinds.push(k);
+                    }
+                } else if u1 == u0 + 1 {
+                    self.undo_kinds.push(ev.kind());
+                    self.redo_kinds.clear();
+                } else if r1 == 0 && r0 > 0 {
+                    self.redo_kinds.clear();
+                }
+                res
+            }
             Err(e) => {
                 self.stats.panics += 1;
                 StepRes { result: Err("panic".into()), panic: Some(panic_message(e)), restarted: false }
